@@ -53,9 +53,13 @@ def convert_to_bool_expression(qlassf: QlassF, form: str):
 
 
 def convert_to_dimacs(expr):
-    clauses = to_cnf(expr, simplify=True).args
-    if len(clauses) == 1 and isinstance(clauses[0], sympy.Symbol):
-        clauses = [clauses]
+    cnf = to_cnf(expr, simplify=True)
+    if cnf == sympy.true:
+        clauses = []
+    elif isinstance(cnf, sympy.And):
+        clauses = cnf.args
+    else:
+        clauses = [cnf]  # a single clause or a single literal
 
     var_dict = {symbol: i + 1 for i, symbol in enumerate(expr.free_symbols)}
     dimacs_clauses = []
@@ -67,6 +71,8 @@ def convert_to_dimacs(expr):
             clause_literals = [clause]
 
         dimacs_clause = []
+        if clause == sympy.false:
+            clause_literals = []  # the empty clause
         for lit in clause_literals:
             if isinstance(lit, sympy.Not):
                 dimacs_clause.append(-var_dict[lit.args[0]])
